@@ -2,9 +2,10 @@
 # Build the driver (and the overlay generator) from files on disk only.
 set -eu
 export GOFLAGS=-mod=mod GOPROXY=off GOSUMDB=off GOTOOLCHAIN=local
-cd /verif/sim
-mkdir -p /verif/bin /verif/evidence /verif/replays
-go1.26.8 build -o /verif/bin/verif ./cmd/verif
-if [ -d ./cmd/mkoverlay ]; then go1.26.8 build -o /verif/bin/mkoverlay ./cmd/mkoverlay; fi
+here=$(cd "$(dirname "$0")/.." && pwd)
+cd "$here/sim"
+mkdir -p "$here/bin" "$here/evidence" "$here/replays"
+go1.26.8 build -o "$here/bin/verif" ./cmd/verif
+go1.26.8 build -o "$here/bin/mkoverlay" ./cmd/mkoverlay
 # warm the build cache for the worker (std + dependencies), so that the first check is quick
 go1.26.8 test -c -o /dev/null ./worker/ || true
